@@ -598,7 +598,12 @@ def cross_mode(ev, rep, module, cfg, cache, limit=None):
     n = 0
     for t in recs:
         a = t["act"]
-        if a["name"] not in ("CvKnotRemove", "CvDegreeDecrease", "CvFitCurve"):
+        if a["name"] not in ("CvKnotRemove", "CvDegreeDecrease", "CvFitCurve", "CvFitInRational"):
+            continue
+        if a["name"] == "CvFitCurve" and (t["pre"][a["obj"]]["W"] or a["other"]["W"]):
+            # the L2 projection onto / of a RATIONAL space needs integrals of rational functions, which the library
+            # approximates by quadrature (open Newton-Cotes for Fractions, Chebyshev for floats): outside the source
+            # lying in the space (CvFitInRational, compared below) the two rules legitimately disagree
             continue
         if a.get("tol", ["none"])[0] != "none" and a["name"] != "CvFitCurve":
             continue  # tolerance decisions near the threshold may legitimately differ between number types
